@@ -82,6 +82,10 @@ class ResurrectorSink(ClientMessageSink):
       try:
         self._varz.reconnect_attempts()
         sink.Open().get()
+        if not self._down_on:
+          # Close() was called while the open was completing.
+          sink.Close()
+          return
         sink.on_faulted.Subscribe(self._OnSinkFaulted)
         self.next_sink = sink
         self._down_on = None
